@@ -485,6 +485,7 @@ pub fn sequence_oracle(srv: &Server, cfg: &ClientCfg, expect_shutdown: bool, exp
                 }
                 act += 1;
             }
+            ClientMsg::Share { pdu: SharePdu::Data { pdu, .. }, .. } if pdu.is_unrelated_legal() => { i += 1; }
             ClientMsg::Share { pdu: SharePdu::Data { pdu: DataPdu::Input { .. }, share_id, .. }, source, initiator, channel } => {
                 i += 1;
                 if act == 0 { fail!("order/input-before-activation", "input PDU before any activation"); }
